@@ -1,5 +1,5 @@
 """C03 — parameter and %pattern% evaluation."""
-import json
+import json, re
 from vlib import core, gen, behave, spec
 
 LEVEL = "proof"
@@ -117,6 +117,43 @@ def run(ctx):
                 dist["with_ref"] += "ref" in ks
             elif s.count("%") % 2 == 0:
                 dist["rejected_token"] += 1
+    # the inverse direction (`literal_roundtrip`): the model's reading of a Go literal agrees with strconv.Unquote
+    # wherever the model gives a value (it covers the escapes %+q produces plus upper-case hex, not octal)
+    lits = [a["ok"] for req, a in zip(reqs, ri) if req["op"] == "quote" and "ok" in a]
+    lits = lits[:: max(1, len(lits) // (4000 if ctx.quick else 40000))]
+    muts = []
+    for q in lits[:: 3]:
+        m = q
+        r = ctx.rng.random()
+        if r < 0.3:
+            m = re.sub(r"\\([xuU])([0-9a-f]+)", lambda mm: "\\" + mm.group(1) + mm.group(2).upper(), q)
+        elif r < 0.6 and len(q) > 2:
+            k = ctx.rng.randrange(1, len(q) - 1)
+            m = q[:k] + ctx.rng.choice(["\\", "\\x4", "\\ud800", "\\U00110000", "\\101", "\"", "\\'", "\\u00e9", "\n", "\t"]) + q[k:]
+        elif r < 0.8:
+            m = q[:-1]
+        muts.append(m)
+    ureqs = [{"op": "unquote", "s": q} for q in lits + muts]
+    ui = ctx.impl.ask_many(ureqs)
+    um = ctx.model.ask_many(ureqs) if ctx.have_model else [None] * len(ureqs)
+    dist.update({"unquote_checked": len(ureqs), "unquote_model_value": 0, "unquote_model_narrower": 0, "unquote_both_reject": 0})
+    for req, a, b in zip(ureqs, ui, um):
+        if b is None:
+            continue
+        if "ok" in b:
+            dist["unquote_model_value"] += 1
+            if a.get("ok") != b["ok"] and len(corr_fail) < 20:
+                corr_fail.append({"op": "unquote", "req": req, "impl": a, "model": b})
+        elif "ok" in a:
+            dist["unquote_model_narrower"] += 1
+        else:
+            dist["unquote_both_reject"] += 1
+    # every literal the real exporter produced must read back (model side) as the original string
+    origs = [req["s"] for req, a in zip(reqs, ri) if req["op"] == "quote" and "ok" in a]
+    origs = origs[:: max(1, len(origs) // (4000 if ctx.quick else 40000))]
+    for s0, b in zip(origs, um[:len(lits)]):
+        if b is not None and b.get("ok") != s0 and len(corr_fail) < 20:
+            corr_fail.append({"op": "unquote∘quote", "req": {"s": s0}, "model": b})
     # level B: one generated container with many parameters; every GetParam result (type and value) and
     # error is compared with the runtime model and judged by the documentation-level evaluator
     lb = level_b(ctx)
@@ -124,7 +161,7 @@ def run(ctx):
     corr_fail += lb["corr_fail"]
     dist.update(lb["dist"])
     return {
-        "evaluations": len(reqs) + lb["dist"]["getparam_checked"], "distinct_nontrivial": len(nontrivial), "programs": lb["dist"]["containers"],
+        "evaluations": len(reqs) + len(ureqs) + lb["dist"]["getparam_checked"], "distinct_nontrivial": len(nontrivial), "programs": lb["dist"]["containers"],
         "rule": "all strings of length <= %d over %s plus %d seeded random Unicode strings; ops chunks/tokenize/quote on each; non-trivial = pattern contains at least one %%" % (L, "".join(gen.ALPHA_PATTERN), nrand),
         "samples": [{"op": "tokenize", "s": s} for s in cases[2000:2003]] + [{"op": "chunks", "s": cases[-1]}],
         "distribution": dist, "corr_fail": corr_fail, "violations": violations,
